@@ -57,8 +57,23 @@ const (
 // value into the configuration exactly as the JSON form assigns it, for all argument strings.
 func VerifC19_Caddyfile() {
 	// which options are present: all, none, or exactly one (15 layouts)
-	layout := verifrt.Choose(nOpts + 2)
-	has := func(o int) bool { return layout == 0 || layout == o+2 }
+	present := make([]bool, nOpts)
+	all := verifrt.Param("allsubsets", 0) == 1
+	layout := 2
+	if !all {
+		layout = verifrt.Choose(nOpts + 2)
+	} else {
+		// every subset of the options
+		for i := 0; i < nOpts; i++ {
+			present[i] = verifrt.Choose(2) == 1
+		}
+	}
+	has := func(o int) bool {
+		if all {
+			return present[o]
+		}
+		return layout == 0 || layout == o+2
+	}
 	val := make([]string, nOpts)
 	names := []string{"mode", "work_dir", "storage_type", "update_interval", "signature_validation_mode", "crl_url", "crl_file", "trusted_signature_cert_file", "crl_fetch_mode", "crl_cdp_strict", "default_cache_duration", "trusted_responder_cert_file", "ocsp_aia_strict"}
 	for i := 0; i < nOpts; i++ {
